@@ -11,11 +11,11 @@ LS = ["a", "b", "c"]
 
 # ------------------------------------------------------------------ observation of the real object
 def views(A):
-    """the three dictionaries exactly as stored, in iteration order (lists of pairs)"""
+    """the three public views (properties graph_dict / out_dict / in_dict) and the start list, as lists of pairs"""
     return {
-        "g": [[v, [[l, w] for l, w in d.items()]] for v, d in A._graph_dict.items()],
-        "o": [[v, [[w, list(ls)] for w, ls in d.items()]] for v, d in A._out_dict.items()],
-        "i": [[v, [[w, list(ls)] for w, ls in d.items()]] for v, d in A._in_dict.items()],
+        "g": [[v, [[l, w] for l, w in d.items()]] for v, d in A.graph_dict.items()],
+        "o": [[v, [[w, list(ls)] for w, ls in d.items()]] for v, d in A.out_dict.items()],
+        "i": [[v, [[w, list(ls)] for w, ls in d.items()]] for v, d in A.in_dict.items()],
         "starts": list(A.start_vertices),
     }
 
@@ -30,8 +30,7 @@ def canon(vw):
     g = sorted(((v, sorted(map(tuple, d), key=lambda e: (e[0], key(e[1])))) for v, d in vw["g"]), key=lambda r: key(r[0]))
     o = sorted(((v, sorted(((w, sorted(ls)) for w, ls in d), key=lambda e: key(e[0]))) for v, d in vw["o"]), key=lambda r: key(r[0]))
     i = sorted(((v, sorted(((w, sorted(ls)) for w, ls in d), key=lambda e: key(e[0]))) for v, d in vw["i"]), key=lambda r: key(r[0]))
-    # incoming view: lazily created empty rows are not part of the state (defaultdict reads create them)
-    i = [r for r in i if r[1]]
+    i = [r for r in i if r[1]]      # an empty incoming row and an absent one describe the same thing
     return {"g": [[v, [list(e) for e in d]] for v, d in g], "o": [[v, [[w, ls] for w, ls in d]] for v, d in o],
             "i": [[v, [[w, ls] for w, ls in d]] for v, d in i], "starts": vw["starts"]}
 
@@ -59,7 +58,7 @@ def coherence_problems(vw, ref=None):
     kg, ko, ki = [r[0] for r in vw["g"]], [r[0] for r in vw["o"]], [r[0] for r in vw["i"]]
     if set(kg) != set(ko):
         pb.append("vertex-sets-differ")
-    if not set(ki) <= set(ko):
+    if not set(ki) <= set(ko):          # rows of vertices without incoming edges may be absent (created on demand)
         pb.append("in-view-has-foreign-vertex")
     ends = {e[0] for e in g} | {e[2] for e in g}
     if not ends <= set(ko):
@@ -120,6 +119,8 @@ class Ref:
             self.E = {(t, m[l], h) for t, l, h in self.E}
         elif k in ("copy", "hasedge"):
             pass
+        elif k == "conflict":
+            self.V |= {op["e"][0], op["e"][1]}        # add_vertices([tail, head]) has run before the refusal
         else:
             raise ValueError(k)
 
@@ -167,8 +168,7 @@ class Ref:
             used = {l for _, l, _ in self.E}
             return used <= set(m) and len({m[l] for l in used}) == len(used)
         if k == "hasedge":
-            # a read accessor; on a non-edge it writes an empty entry (defaultdict) — outside the property's operations
-            return any(t == op["t"] and h == op["h"] for t, _, h in self.E)
+            return op["t"] in self.V          # read accessors: any pair whose tail is a vertex (KeyError otherwise)
         return True
 
     # ---- language
@@ -209,7 +209,11 @@ def build(init):
         A = FSA({}, start_vertices=list(init["starts"]))
         V, E = set(), set()
     elif r == "free":
-        A = FS.free_automaton(list(init["gens"]))
+        gens_arg = list(init["gens"])
+        pk = init.get("pack", "list")
+        gens_arg = {"list": gens_arg, "tuple": tuple(gens_arg), "iter": iter(gens_arg), "gen": (g for g in gens_arg),
+                    "str": "".join(gens_arg), "view": dict.fromkeys(gens_arg).keys()}[pk]
+        A = FS.free_automaton(gens_arg)
         gens = list(init["gens"]) + [inv_gen(g) for g in init["gens"]]
         V = {""} | set(gens)
         E = {(g, h, h) for g in V for h in gens if inv_gen(h) != g}
@@ -247,8 +251,24 @@ def apply_op(A, op):
         A.rename_generators(dict(map(tuple, op["m"])), inplace=True)
     elif k == "copy":
         A = copy.deepcopy(A)
+    elif k == "conflict":
+        t, h, l = op["e"]
+        try:
+            A.add_edges([(t, h, [l] if op["elist"] else l)], elist=op["elist"], ignore_redundant=op["ir"])
+        except FS.FSAException:
+            return A
+        raise AssertionError("add_edges accepted an edge contradicting an existing (tail, label)")
     elif k == "hasedge":
-        A.has_edge(op["t"], op["h"])
+        q = op.get("q", "has_edge")
+        if q == "has_edge":
+            A.has_edge(op["t"], op["h"])
+        elif q == "edge_labels":
+            A.edge_labels(op["t"], op["h"]).append("_poke")
+        else:
+            try:
+                A.edge_label(op["t"], op["h"])
+            except ValueError:
+                pass
     else:
         raise ValueError(k)
     return A
@@ -278,8 +298,19 @@ def rand_starts(rng, vs):
     return [rng.choice(vs) for _ in range(rng.choice([2, 2, 3]))]
 
 
-def rand_init(rng, vs=None, ls=None):
+ALPHABETS = {"default": ["a", "b", "c"], "permuted": ["c", "a", "b"], "multi": ["ab", "c", "ba"],
+             "case": ["a", "A", "b"], "int": [0, 1, 2]}
+
+
+def rand_init(rng, vs=None, ls=None, alphabet="default"):
     vs = vs or VS[:rng.choice([1, 2, 3, 3, 4])]
+    if alphabet != "default" and ls is None:
+        full = ALPHABETS[alphabet]
+        init = None
+        while init is None or init["route"] not in ("graph", "out", "empty"):
+            init = rand_init(rng, vs, full[:rng.choice([1, 2, 2, 3])])
+        init["ls"] = list(full)
+        return init
     ls = ls or LS[:rng.choice([1, 2, 2, 3])]
     r = rng.random()
     if r < 0.45:
@@ -298,7 +329,8 @@ def rand_init(rng, vs=None, ls=None):
     if r < 0.82:
         return {"route": "empty", "starts": rand_starts(rng, vs)}
     if r < 0.9:
-        return {"route": "free", "gens": rng.sample(["a", "b", "c"], rng.choice([1, 2, 2, 3]))}
+        return {"route": "free", "gens": rng.sample(["a", "b", "c"], rng.choice([1, 2, 2, 3])),
+                "pack": rng.choice(["list", "tuple", "iter", "gen", "str", "view"])}
     n = rng.choice([1, 2, 3, 4])
     labels = ls
     return {"route": "kbmag", "labels": labels, "initial": [1],
@@ -306,6 +338,8 @@ def rand_init(rng, vs=None, ls=None):
 
 
 def universe(init):
+    if "ls" in init:
+        return VS, list(init["ls"])
     if init["route"] == "free":
         gens = list(init["gens"]) + [inv_gen(g) for g in init["gens"]]
         return [""] + gens + ["z"], gens
@@ -335,7 +369,7 @@ def rand_op(rng, ref, vs, ls, p_invalid=0.0, fresh=True):
         elif k == "rename":
             perm = ls[:]
             rng.shuffle(perm)
-            tgt = perm if (rng.random() < 0.6 or not fresh) else [l + "x" for l in ls]
+            tgt = perm if (rng.random() < 0.6 or not fresh or not all(isinstance(l, str) for l in ls)) else [l + "x" for l in ls]
             op = {"k": k, "m": [[a, b] for a, b in zip(ls, tgt)]}
         elif k == "hasedge":
             es = sorted(ref.E, key=repr)
@@ -344,6 +378,7 @@ def rand_op(rng, ref, vs, ls, p_invalid=0.0, fresh=True):
                 op = {"k": k, "t": e[0], "h": e[2]}
             else:
                 op = {"k": k, "t": rng.choice(vs), "h": rng.choice(vs)}
+            op["q"] = rng.choice(["has_edge", "edge_labels", "edge_label"])
         else:
             op = {"k": k}
         if ref.valid(op):
@@ -353,12 +388,21 @@ def rand_op(rng, ref, vs, ls, p_invalid=0.0, fresh=True):
     return {"k": "copy"}, True
 
 
-def rand_history(rng, maxlen=40, p_invalid=0.0, fresh=True):
-    init = rand_init(rng)
+def rand_history(rng, maxlen=40, p_invalid=0.0, fresh=True, alphabets=("default",), conflicts=False):
+    init = rand_init(rng, alphabet=rng.choice(list(alphabets)))
     vs, ls = universe(init)
     _, ref = build(init)
     ops = []
     for _ in range(rng.randint(1, maxlen)):
+        if conflicts and ref.E and rng.random() < 0.12:
+            # an edge that contradicts an existing (tail, label): must be refused, the automaton stays coherent
+            t, l, h = rng.choice(sorted(ref.E, key=repr))
+            others = [v for v in vs if v != h]
+            if others:
+                op = {"k": "conflict", "e": [t, rng.choice(others), l], "elist": rng.random() < 0.5, "ir": rng.random() < 0.7}
+                ops.append(op)
+                ref.apply(op)
+                continue
         op, ok = rand_op(rng, ref, vs, ls, p_invalid, fresh)
         ops.append(op)
         if not ok:
